@@ -44,6 +44,9 @@ netware_line = st.tuples(st.sampled_from(["d", "-", "l"]), st.sampled_from(["[R-
 other_line = st.sampled_from(["total 12345", "total", "", " ", "\t", "Permission denied", "ls: cannot access", "+", "+,", "+\t", "x" * 1025, "w " * 600, "- " * 70, "Jan 1 2020", "Jan  1  2020 name",
                               "1 Jan 1 2020 n", "a b c Jan 1 2020", "a b 5 Jan 1 2020", "a b c 5 Jan 1 2020", "drwx 5 Jan 1", "drwx 1 u g 5 Jan", "04-05-70 09:33PM", "04-05-70 09:33PM <DIR>", "\x00abc", "abc\x00def"])
 
+# lines around the tokeniser's 64-token limit (well under the 1024-byte limit that bypasses the tokeniser)
+many_tok_line = st.tuples(st.integers(58, 90), st.sampled_from(["-", "a", "Jan", "1", "12:34", "x y"]), st.sampled_from([" ", "  ", "\t"])).map(lambda t: t[2].join([t[1]] * t[0]))
+
 line_mut = st.one_of(
     st.tuples(st.just("none"), st.just(0), st.just(0)), st.tuples(st.just("none"), st.just(0), st.just(0)),
     st.tuples(st.just("droptok"), st.integers(0, 12), st.just(0)),
@@ -87,7 +90,7 @@ def apply_mut(line, m):
 
 def strategy(tp):
     n = int(tp.get("lines", 50))
-    line = st.tuples(st.one_of(unix_line, unix_line, unix_line, dos_line, eplf_line, netware_line, other_line), line_mut).map(lambda t: apply_mut(t[0], t[1]))
+    line = st.tuples(st.one_of(unix_line, unix_line, unix_line, dos_line, eplf_line, netware_line, other_line, many_tok_line), line_mut).map(lambda t: apply_mut(t[0], t[1]))
     return st.fixed_dictionaries({
         "lines": st.lists(line, min_size=0, max_size=n),
         "eol": st.sampled_from(["\r\n", "\r\n", "\n", "\r", "\r\r\n"]),
@@ -142,7 +145,14 @@ def execute(env, sc):
     env.ftp.script(ns, beh)
     path = "/" + "/".join([ns] + sc["subdirs"]) + ("/" if sc["slash"] else "") + sc["typecode"]
     url = "ftp://127.0.0.1:%d%s" % (env.ftp.port, path.replace(" ", "%20").replace("<", "%3C").replace(">", "%3E"))
-    c = client.Conn(env.port, timeout=30)
+    try:
+        c = client.Conn(env.port, timeout=30)
+    except OSError:
+        # the proxy is not listening: it died after the previous health check (reported now) or is still starting
+        env.ftp.forget(ns)
+        if env.health(r):
+            r.inconclusive = "could not connect to the proxy"
+        return r
     try:
         c.send(("GET %s HTTP/1.1\r\nHost: 127.0.0.1:%d\r\nConnection: close\r\n\r\n" % (url, env.ftp.port)).encode("latin-1"))
         m = c.read_response(b"GET", timeout=30)
@@ -158,6 +168,9 @@ def execute(env, sc):
     if m is None or getattr(m, "timed_out", False):
         r.inconclusive = "client timed out"
     elif getattr(m, "bad", False) or m.status is None:
+        deadline = time.time() + 3
+        while time.time() < deadline and not env.squid.health_problems():
+            time.sleep(0.1)         # a dying proxy needs a moment to leave its evidence
         if env.squid.health_problems():
             pass            # reported by env.health() below
         else:
